@@ -147,6 +147,11 @@ static int prov_effectively_forged(uint32_t serial, const char **why)
         return 0;
       }
     }
+    if (v - 1 == PV_WRONG_ID) {
+      /* the altered id may be the id of ANOTHER live query (two requests for one question in flight on one
+       * socket: thorough tier, seed 1): then the packet is a perfect reply to that one */
+      return !(prov_live_at_read[serial - 1] && prov_conn_ok[serial - 1]);
+    }
     if (v - 1 == PV_REPLAY_OLD || v - 1 == PV_WRONG_SOCKET) {
       /* a correct answer is only unacceptable if the query it names is not waiting on the socket it
        * arrived on; otherwise it is indistinguishable from a genuine (duplicate) reply */
